@@ -278,7 +278,7 @@ func (sp *specParser) postfix(e *SExpr) *SExpr {
 		case sp.isOp("."):
 			sp.next()
 			n := sp.next()
-			if n.k != "id" {
+			if n.k != "id" && n.k != "num" {
 				panic("expected field name after .")
 			}
 			e = &SExpr{Kind: "sel", Name: n.s, Args: []*SExpr{e}}
